@@ -37,7 +37,7 @@ ASSUMPTIONS = [
 ]
 RULE = ("seeded generator (VERIF_SEED). S: scripted peer vs real endpoint (roles cg ct sg sa st): all sequences of length <=3 (quick) / <=4 (thorough) over ~11 typical tokens, "
         "honest prefix + every single deviation at every position, every truncation and every length/count field perturbation of every message body, "
-        "ClientHello/ServerHello versions 0x0000..0x0400 (quick: stride + boundaries) x suite lists, random sequences up to length 12, certificate-kind mixes; "
+        "stall scripts (honest prefix, then only the header / header and part of the body of the next record, then silence with the connection open while the endpoint has a 250 ms deadline: Handshake must return an error); ClientHello/ServerHello versions 0x0000..0x0400 (quick: stride + boundaries) x suite lists, random sequences up to length 12, certificate-kind mixes; "
         "H: real client vs real server for every mode pair x ClientAuth x suites x tickets x resumption x MaxVersion; V: version gate black box; "
         "R: an otherwise honest scripted peer (genuine key exchange and verify_data through hooks) re-packing its flights into records (every coalescing, Finished in the clear before ChangeCipherSpec, ChangeCipherSpec twice / early / missing) and offering ClientHello versions in the gap 0x0102..0x02ff; per-extension perturbations of ClientHello/ServerHello (every extension type x body lengths 0,1,2,len-1,len+1 x position); PK/PS/PR/PH: byte-level parsers through hooks; PM: every handshake message of every S case (all truncations, length-field pokes, the per-extension matrix) plus exhaustive short inputs, structured random ClientHello/ServerHello extension blocks, certificate lists with overrunning entries, both hasSignatureAndHash flags - fed to the real unmarshal of each of 12 message types and to the byte-level model, every parsed field compared; PW: message VALUES (the parsed fields of every accepted PM case, random values inside the canonical domain with edge lengths, and values outside it) marshalled by the real marshal() and by the byte-level model, output bytes compared, and unmarshal(marshal(m)) = m checked on both sides. Non-trivial: every case except the empty script; distinct = distinct case text")
 
@@ -95,6 +95,9 @@ def predicate(f, io):
     """the property on /repo's own outcome, independent of the model"""
     if not io:
         return False, "no observation"
+    if f[0] == "S" and "HANG" in io and f[5].split(";")[-1].startswith("Z"):
+        # stall script: the peer sent only the start of a record and stays silent with the connection open; the endpoint has a read deadline
+        return False, "Handshake() did not return after the endpoint's read deadline had expired (peer stalled in the middle of a record, connection open)"
     if any(x in ("PANIC", "HANG") for x in io):
         return False, "endpoint " + ("panicked" if "PANIC" in io else "kept waiting after the peer's stream had ended (deadline)")
     op = f[0]
